@@ -12,8 +12,8 @@ CHECKS = {
          '5/C01'),
  'C02': ('rqmc', 'model_checking',
          'bounded-exhaustive enumeration of (file, hunk, stated line, fuzz limit, direction) on the real apply, clause-wise oracle from brute-force match sets',
-         'All files over {a,b} up to 5 (7) lines x all hunk shapes with up to 2 (3) context lines per side x stated lines x fuzz limits 0-3 x direction, plus two-hunk patches for the previous-offset rule; each verdict of the real code is checked clause by clause (matches where applied, nearest/forward-first, anchoring, lowest level, fails only when nothing matches).',
-         'The oracle accepts both readings where the statement is ambiguous (position of a prefix-trimmed block; order conflicts between hunks), so it cannot false-alarm on GNU-conforming variants; magnitudes beyond the bound are not covered.',
+         'All files over {a,b} up to 5 (7) lines x all hunk shapes with up to 2 (3) context lines per side x stated lines x fuzz limits 0-3 x direction, plus two-hunk patches for the previous-offset rule (also on all files of 9 (11) lines, where a nearer match of the second hunk before the first one exists and must not be used); each verdict of the real code is checked clause by clause (matches where applied, nearest/forward-first, anchoring, lowest level, fails only when nothing matches).',
+         'The oracle leaves open what the statement leaves open (a second hunk with a match inside or right behind the first one), so it cannot false-alarm on GNU-conforming variants; magnitudes beyond the bound are not covered.',
          '5/C02'),
  'C03': ('rqmc', 'model_checking',
          'bounded-exhaustive enumeration of overlapping multi-hunk patches on the real apply, line-level reconstruction oracle from the hunk reports',
@@ -32,8 +32,8 @@ CHECKS = {
          '5/C11'),
  'C12': ('rqmc', 'model_checking',
          'bounded-exhaustive enumeration of parseable inputs (token sequences, token edits, reference diffs x header dialects) through the real parse-write-parse-write',
-         'Every parseable input of the C11 sequence/edit spaces and every reference diff under 8 header dialects is written and re-parsed; file-patch fields, hunk sides and start lines must agree and the second write must be byte-identical.',
-         'Context/changed classification of lines is deliberately not compared (the writer re-derives it). KF-02 (vanishing no-op hunk-less entries) is recorded, not repaired.',
+         'Every parseable input of the C11 sequence/edit spaces and every reference diff under 9 header dialects (incl. diff -N) is written and re-parsed; file-patch fields, hunk sides and start lines must agree, creating/deleting/hunk-less entries must also do the same to a menu of files, and the second write must be byte-identical.',
+         'Context/changed classification of lines is deliberately not compared (the writer re-derives it). (KF-02, vanishing no-op hunk-less entries, was repaired.)',
          '5/C12'),
  'C15': ('wsweep', 'model_checking',
          'bounded-exhaustive enumeration of workspaces hard-linked into a twin tree x loaders x threads on the real binary under the LD_PRELOAD monitor',
@@ -42,22 +42,22 @@ CHECKS = {
          '5/C15'),
  'C16': ('wsweep', 'model_checking',
          'bounded-exhaustive enumeration of series-line spellings x strip levels x header forms, and of the old/new-name existence matrix x kinds x push splits x threads, on the real binary; toy-quilt oracle',
-         'All getopts spellings of -p0..2 with/without -R in both orders between comment/blank/whitespace lines, path depths 1-3, header forms where only one name decides at -p0..3; and the 5x5 existence matrix of old and new name x {modify, create, delete} x {one push, split} x threads {1,2}: the tree shows which name was patched and with which strip level and direction.',
+         'All getopts spellings of -p0..2 with/without -R in both orders between comment/blank/whitespace lines, path depths 1-3, every name of up to three leading components over {d,e,.} (thorough: also //) at -p0..4 with a decoy file at each of the 15 places, header forms where only one name decides at -p0..3; and the 5x5 existence matrix of old and new name x {modify, create, delete} x {one push, split} x threads {1,2}: the tree shows which name was patched and with which strip level and direction.',
          'Both candidate files hold identical lines so the hunk fits either name; the oracle is the toy-quilt rule (old name if it currently exists, else new).',
          '5/C16'),
  'C17': ('wsweep', 'model_checking',
          'bounded-exhaustive enumeration of (series, applied-patches) pairs x goals x threads x verbosity, and of bad patch files at every range position, on the real binary',
-         'All pairs of duplicate-free series over 3 names and applied-patches sequences of up to 3 names (incl. longer, reordered, edited, duplicated), all goal arguments, threads 1/2, both verbosities, plus missing/unparseable/unreadable patch files at every position of the range after 0-2 applied patches: whenever the precondition of the statement holds the run must exit 1 with a message and leave the full snapshot (inodes, mtimes) identical.',
+         'All pairs of duplicate-free series over 3 (thorough: 4) names and applied-patches sequences of up to 3 (4) names (incl. longer, reordered, edited, duplicated), all goal arguments, threads 1/2, both verbosities, plus missing/unparseable/unreadable patch files at every position of the range after 0-2 applied patches: whenever the precondition of the statement holds the run must exit 1 with a message and leave the full snapshot (inodes, mtimes) identical.',
          'Unreadable is simulated by a directory in place of the patch file (the sandbox runs as root).',
          '5/C17'),
  'C18': ('wsweep', 'fault_enumeration',
          'exhaustive single-fault enumeration at the libc boundary of the real binary (LD_PRELOAD): one run per mutating call k and errno, for sequential and (scheduler-serialised) parallel drivers',
-         'For ~45 (thorough ~90) workloads x backup {always,never} x 3 drivers, every mutating libc call of the fault-free run is failed once per applicable errno (EIO, ENOSPC, EACCES) and, for a subset, every write is cut short: the run must exit non-zero without crashing, name the failing path, and record no patch whose files are not all on disk; short writes must change nothing.',
+         'For ~50 (thorough ~1750: every series of the base space) workloads x backup {always,never} x 3 drivers, every mutating libc call of the fault-free run is failed once per applicable errno (EIO, ENOSPC, EACCES) and, for a subset, every write is cut short: the run must exit non-zero without crashing, name the failing path, and record no patch whose files are not all on disk; short writes must change nothing.',
          'Single faults only; faults are injected in the dynamically linked binary\'s libc calls; the parallel driver runs under the serial schedules lowest-first and highest-first.',
          '5/C18'),
  'C19': ('wsweep', 'model_checking',
          'bounded-exhaustive enumeration of escaping name spellings x header positions x kinds x strip levels x threads on the real binary inside a sentinel directory under the LD_PRELOAD monitor',
-         '10 spellings (absolute, several shapes of "..", plain and quoted) x header position x file-patch kind (incl. failing hunks => rejects) x -p0..3 x threads: the sentinel tree outside the workspace must be identical (inodes, mtimes), the monitor must log no call outside the workspace, and a name that still escapes after stripping must be refused with exit 1.',
+         '10 hand-picked spellings (absolute, several shapes of "..", plain and quoted) and every name of up to 3 (thorough: 4) components over {a, x, .., .} x header position x file-patch kind (incl. failing hunks => rejects) x -p0..3 x threads: the sentinel tree outside the workspace must be identical (inodes, mtimes), the monitor must log no call outside the workspace, and a name that still escapes after stripping must be refused with exit 1.',
          'The monitor sees libc calls only; decoy files sit at every escape target.',
          '5/C19'),
  'C20': ('rqmc', 'model_checking',
